@@ -26,7 +26,10 @@ def gen_result(rng, nbits):
     v = F(rng.randint(-3, 3), rng.choice([1, 1, 2]))
     if NONNEG[0]:
         v = abs(v) if rng.random() < 0.7 else F(0)
-    return {"v": [v.numerator, v.denominator], "bits": [rng.random() < 0.5 for _ in range(nbits)], "spin": rng.random() < 0.5}
+    r = {"v": [v.numerator, v.denominator], "bits": [rng.random() < 0.5 for _ in range(nbits)], "spin": rng.random() < 0.5}
+    if rng.random() < 0.15:
+        r["np"] = True      # the state's values are numpy integers (what numpy-based samplers hand over), equal to 0/1/-1
+    return r
 
 
 def gen_slice(rng):
@@ -162,7 +165,11 @@ def state_of(bits, spin):
 
 def mk(r):
     from qubovert.sim import AnnealResult
-    return AnnealResult(state_of(r["bits"], r["spin"]), C.num(F(*r["v"])), r["spin"])
+    st = state_of(r["bits"], r["spin"])
+    if r.get("np"):
+        import numpy
+        st = {i: numpy.int64(x) for i, x in st.items()}
+    return AnnealResult(st, C.num(F(*r["v"])), r["spin"])
 
 
 def unmk(x):
